@@ -30,6 +30,10 @@ func runC13(c *Ctx) {
 	gd := c.Godev()
 	r := c.R
 	c13Merge(c, gd)
+	// merged reports and charts live in different buckets (both are named <date>.json)
+	c18BucketWiring(c, gd, "C13.rewrite-replaces")
+	cCloseBeforeSuccess(c, gd, gd.Func("cmd/worker", "handleMerge$1"), "C13.merge-one-per-object")
+	cCloseBeforeSuccess(c, gd, gd.Func("cmd/worker", "handleChart$1"), "C13.every-report-counted")
 	c13Reader(c, gd)
 	c13Chart(c, gd)
 	c13Determinism(c, gd)
@@ -801,4 +805,63 @@ func cToolchainPred(c *Ctx, m *Module, rule string) {
 		r.Check(rule, fmt.Sprintf("IsToolchainProgram/result #%d is HasPrefix(path, \"cmd/\")", n), m.Pos(ex.ret.Pos()), ok, "got "+shortDesc(describe(v)))
 	}
 	r.Check(rule, "IsToolchainProgram/results enumerated", m.Pos(f.Pos()), n >= 1, fmt.Sprintf("%d", n))
+}
+
+// cCloseBeforeSuccess: a handler that writes an object answers 200 only after Close of the
+// object's writer returned nil — with Cloud Storage, Close is where a failed write is reported and
+// the object is then not there. The deferred Close (its error dropped) does not count.
+func cCloseBeforeSuccess(c *Ctx, gd *Module, h *ssa.Function, rule string) {
+	r := c.R
+	n := 0
+	for _, cs := range callsIn(h) {
+		cc := cs.Common()
+		if !cc.IsInvoke() || cc.Method.Name() != "NewWriter" {
+			continue
+		}
+		nw, ok := cs.(*ssa.Call)
+		if !ok {
+			continue
+		}
+		var w ssa.Value
+		for _, u := range referrers(nw) {
+			if ex, ok := u.(*ssa.Extract); ok && ex.Index == 0 {
+				w = ex
+			}
+		}
+		if w == nil {
+			continue
+		}
+		var closes []*ssa.Call
+		for _, cs2 := range callsIn(h) {
+			c2 := cs2.Common()
+			if cl, isCall := cs2.(*ssa.Call); isCall && c2.IsInvoke() && c2.Method.Name() == "Close" && strip(c2.Value) == strip(w) {
+				closes = append(closes, cl)
+			}
+		}
+		for _, cs3 := range callsIn(h) {
+			name := calleeName(cs3.Common())
+			if !strings.HasPrefix(name, "godev/internal/content.") || !nw.Block().Dominates(cs3.Block()) {
+				continue
+			}
+			is200 := false
+			for _, a := range cs3.Common().Args {
+				if k, isC := constOf(a); isC && k == "200" {
+					is200 = true
+				}
+			}
+			if !is200 {
+				continue
+			}
+			n++
+			okClosed := false
+			for _, cl := range closes {
+				if hasFact(factsAt(cs3), errNilOf(cl)) {
+					okClosed = true
+				}
+			}
+			r.Check(rule, fname(h)+"/answers 200 only after the object's writer was closed without error", gd.Pos(cs3.Pos()), okClosed,
+				"Close() of the writer returned by NewWriter must have been called and its error tested on every path to the 200 answer")
+		}
+	}
+	r.Check(rule, fname(h)+"/success answers after a write enumerated", gd.Pos(h.Pos()), n >= 1, fmt.Sprintf("%d", n))
 }
